@@ -3,7 +3,8 @@
 # (every check has its own scratch directory and evidence file)
 tier=${1:-quick}
 cd "$(dirname "$0")/.."
-props="C01 C02 C03 C04 C05 C06 C07 C08 C09 C10 C11 C12 C13 C14 C15 C16 C17"
+# (longest first: with JOBS > 1 the long checks must not be the last to start)
+props="C01 C03 C09 C13 C12 C02 C07 C16 C10 C11 C06 C05 C17 C04 C15 C08 C14"
 echo $props | tr ' ' '\n' | xargs -P ${JOBS:-1} -I{} sh -c 'p={}; s=$(date +%s); ./check $p --tier '$tier' > .runall.$p.log 2>&1; rc=$?; e=$(date +%s); echo "$p rc=$rc $((e-s))s $(grep -c "^VIOLATION" .runall.$p.log) violations, $(grep -c "^KNOWN-FINDING" .runall.$p.log) known, $(grep -c "^MODEL-DRIFT" .runall.$p.log) drift"'
 # one line that cannot be missed: which checks did not end clean
 bad=$(for p in $props; do if grep -q "^VIOLATION\|^BROKEN" .runall.$p.log 2>/dev/null; then printf "%s " $p; fi; done)
